@@ -142,6 +142,43 @@ def verdictOfSpec (fails : List String) (okTag : String) : Bool × String :=
   | [] => (true, okTag)
   | f :: _ => (false, "spec-" ++ f)
 
+def lowerHostPath (src : Str) : Str × Str :=
+  let (h, p) := hostpath src
+  (lowerL h, p)
+
+/-! ### `route weight` spreading, checked on the implementation's table
+
+The trailing block of `route weight` commands of a script (nothing but `weight` commands after it) and, per
+route of the implementation's dump, (service, tags, FixedWeight) of its targets. -/
+
+def trailingWeightCmds (ds : List Json) : List (Str × WCmd) :=
+  let blk := (ds.reverse.takeWhile (fun d => (d.getObjValAs? String "cmd").toOption == some "weight")).reverse
+  blk.filterMap (fun d =>
+    match (d.getObjValAs? String "weight").toOption.bind parseRat with
+    | none => none
+    | some w =>
+      let tags := (strList ((d.getObjVal? "tags").toOption.getD .null)).toOption.getD []
+      some (getStrD d "src", { service := getStrD d "service", tags, w }))
+
+def spreadOk (impl : Json) (ds : List Json) : Bool :=
+  let cmds := trailingWeightCmds ds
+  if cmds.isEmpty then true else
+  match (impl.getObjVal? "table").toOption.bind (fun t => t.getArr?.toOption) with
+  | none => true
+  | some hosts =>
+    hosts.toList.all (fun h =>
+      match (h.getObjVal? "routes").toOption.bind (fun r => r.getArr?.toOption) with
+      | none => true
+      | some rs => rs.toList.all (fun r =>
+          let host := getStrD r "host"
+          let path := getStrD r "path"
+          let mine := (cmds.filter (fun c => lowerHostPath c.1 == (host, path))).map (·.2)
+          let ts := ((r.getObjVal? "targets").toOption.bind (fun a => a.getArr?.toOption)).getD #[]
+          let tg := ts.toList.map (fun t =>
+            (getStrD t "service", (strList ((t.getObjVal? "tags").toOption.getD .null)).toOption.getD [],
+             ((t.getObjValAs? String "fixed").toOption.bind parseRat).getD 0))
+          spreadHonoured tg mine))
+
 /-! ### c04.weights -/
 
 def weightsH : Handler := fun inp impl => do
@@ -161,7 +198,9 @@ def weightsH : Handler := fun inp impl => do
     let ringsOk := ringRes.all (·.1)
     let mw := modelWeights t
     let slotsOk := mw.length == os.length && (mw.zip os).all (fun (w, o) => slotsNear w o)
-    let fails := os.foldr (fun o acc => specFailures o ++ acc) []
+    let raw ← rawDefs inp impl
+    let fails := os.foldr (fun o acc => specFailures o ++ acc) [] ++
+      (if spreadOk impl raw.toList then [] else ["route-weight-not-spread"])
     let cls := match biggest os with
       | some o => weightClass o
       | none => "empty"
@@ -174,10 +213,6 @@ def weightsH : Handler := fun inp impl => do
     return ({ model := m, agree := tableOk && ringsOk && slotsOk, spec, nontrivial := nt, tag } : Verdict).toJson
 
 /-! ### shared by rr / rnd: the model's view of the route that is looked up -/
-
-def lowerHostPath (src : Str) : Str × Str :=
-  let (h, p) := hostpath src
-  (lowerL h, p)
 
 /-- model weights of the route named by `src` (none: no such route) -/
 def modelRoute (env : Env) (defs : List RouteDef) (src : Str) : Except Err (Option Route) :=
